@@ -14,6 +14,13 @@ import (
 // sanitizerForContext returns an ordered list of function names that will be called to
 // sanitize data values found in the HTML context defined by c.
 func sanitizerForContext(c context) ([]string, error) {
+	if c.element.continued {
+		// Only a prefix of the element name is known, e.g. "s" for `<s{{/* c */}}cript>`.
+		if c.attr.name != "" || len(c.attr.names) > 0 {
+			return nil, fmt.Errorf("actions must not occur in the %q attribute value context of a %q element", c.attr.name, c.element.name)
+		}
+		return nil, fmt.Errorf("actions must not occur in the element content context of a %q element", c.element.name)
+	}
 	switch c.state {
 	case stateTag, stateAttrName, stateAfterName:
 		return nil, fmt.Errorf("actions must not affect element or attribute names")
